@@ -948,6 +948,22 @@ func Touch(o *Obj, write bool, val uint64) {
 	s.commit(s.cur, KLog, o, write, val)
 }
 
+// ExtCalls turns the rewriter-inserted points in front of calls to thread-safe
+// objects of packages that are not rewritten (Prometheus vectors) into
+// scheduling points. Set by a scenario's Setup; off by default.
+var ExtCalls bool
+
+var extObj Obj
+
+// ExtCall is a scheduling point in front of such a call (a write to one global
+// object: all of them are ordered with respect to each other).
+func ExtCall(name string) {
+	if !ExtCalls {
+		return
+	}
+	Touch(&extObj, true, hashString(name))
+}
+
 // Infra reports a situation the harness machinery cannot handle (not a property
 // violation): the process exits with status 2, which the driver reports as an
 // infrastructure error and never as a VIOLATION.
